@@ -375,3 +375,25 @@ pub fn schedules(input: &[u8], rng: &mut Rng, n_random: usize) -> Vec<crate::mon
     }
     v
 }
+
+/// YAML text whose multi-byte characters fall on every alignment around the
+/// read sizes of the layers below (8 KiB BufReader, 16 KiB libyaml raw buffer),
+/// long enough that a read following a straddled character is a full one.
+/// `variant` selects the boundary, the alignment and the character mix.
+pub fn boundary_yaml_text(variant: usize) -> String {
+    let boundaries = [8192usize, 16384, 24576, 32768];
+    let boundary = boundaries[variant % 4];
+    let align = (variant / 4) % 8; // 0..7 bytes before the boundary
+    let units = ["é", "中", "😀", "é中", "😀é"];
+    let unit = units[(variant / 32) % 5];
+    // "k: \"" is 4 bytes; pad so that a run of multi-byte characters starts `align` bytes before the boundary
+    let pad = boundary - 4 - align;
+    let mut t = String::with_capacity(boundary * 2 + 64);
+    t.push_str("k: \"");
+    t.push_str(&"x".repeat(pad));
+    t.push_str(&unit.repeat(16));
+    // enough further text for the next reads to be full ones
+    t.push_str(&"y".repeat(20000));
+    t.push_str("\"\n");
+    t
+}
